@@ -6,11 +6,11 @@
 # in seeded/MISSED.txt, refactorings that still alarm in benign/ALARMS.txt (neither becomes a control).
 import json, os, re, subprocess, sys, glob, threading, queue
 from concurrent.futures import ThreadPoolExecutor
-# argument 1: a scratch worktree of /repo; three more are created next to it (<wt>-2..4) and
-# removed again, so that four patches are evaluated at a time
+# argument 1: a scratch worktree of /repo; five more are created next to it (<wt>-2..6) and
+# removed again, so that six patches are evaluated at a time
 wt = sys.argv[1]
 WTS = [wt]
-for k in (2, 3, 4):
+for k in (2, 3, 4, 5, 6):
     w = '%s-%d' % (wt, k)
     subprocess.run(['git', '-C', '/repo', 'worktree', 'remove', '--force', w], capture_output=True)
     subprocess.run(['rm', '-rf', w])
